@@ -242,6 +242,45 @@ func TestC01(t *testing.T) {
 	}
 	rec.Exhaustive(fmt.Sprintf("all programs of the reduced alphabet with <= %d nodes on %d inputs (and <= %d nodes on 2 inputs)", maxFull, len(enumInputs), maxPartial), complete)
 
+	// (R) bounded-exhaustive "resume" family: a generator in every kind of
+	// sub-expression position, whose resumption must find its state (input
+	// temporaries, variable slots, argument buffers) as it left it, followed by
+	// a construct that allocates temporaries of its own in the same scope
+	gens := []string{"g", ".[]?", "(1, 2)", "range(2)", "range(0; 3; 1.5)", "(.a?, 7)", "first(g, g), 5", "limit(2; repeat(3))", "(g | . + 1)", "range(100000000000000000000; 100000000000000000002)"}
+	forms := []string{". + (G)", "(G) + .", "[., (G)]", "{a: ., b: (G)}", "(G) as $y | [., $y]", "reduce (G) as $i (.; . + $i)", "reduce (1, 2) as $i (. * (G); . + $i)", "[foreach (G) as $i (.; . + $i)] | add",
+		"foreach (1, 2) as $i ((G); . + $i)", "if (G) > 1 then . + 1 else . - 1 end", "\"\\(.)-\\(G)\" | length", "[.,.,.][(G) % 3]", "[.,.,.,.][(G) % 3:] | length", "h(G)", "hv(G; 1)", "(G) // 0", "try (. + (G)) catch -1",
+		"label $l | (. + (G))", "[(G), .] | add", "(G) | . + 1", ". as $in | (G) | . + $in", "[paths] | length + (G)", "(.. | numbers) + (G)", "(G) * 1 | . + (G)", "limit(3; . + (G))", "first(. + (G)), (. - (G))"}
+	follows := []string{". * 2", "[., . + 1]", "{a: ., b: (. + 1)}", ". as $y | $y + 1", "reduce (1, 2) as $i (.; . + $i)", "if . > 0 then . + 1 else . - 1 end", "tostring | . + \"x\"", "[range(2)] | length", ". + (. * 2)", "[limit(2; ., .)]",
+		"[.,.][0:1] | .[0]", "tojson | test(\"1\")", "[., 1] | .[0] as [$q] ?// $q | $q", ". as [$a] ?// $a | [$a] | .[0]", "(. + 1) as $a | (. + 2) as $b | [$a, $b]", "[.] | map(. + 1) | add"}
+	rcomplete := true
+	rn := 0
+	for _, f := range forms {
+		for _, g := range gens {
+			for ki, k := range follows {
+				rn++
+				if !rec.Mine(rn) {
+					continue
+				}
+				if !rec.Thorough() && (rn+ki)%3 != 0 {
+					continue // quick: a third of the grid
+				}
+				src := "def g: 1, 2; def h(f): [f] | add; def hv($a; $b): $a + $b; [10 | " + strings.ReplaceAll(f, "G", g) + " | " + k + "]"
+				for _, in := range []any{nil, map[string]any{"a": 3}} {
+					pc := progCase{Query: src, Input: univ.V{X: in}, Features: []string{"resume", "reduce"}}
+					rec.Class("tier/resume")
+					if msg := judge("resume", pc); msg != "" {
+						rec.Direct("resume", pc, "%s", msg)
+						rcomplete = false
+						if rec.Violations() > 10 {
+							t.Fatalf("too many violations")
+						}
+					}
+				}
+			}
+		}
+	}
+	rec.Exhaustive(fmt.Sprintf("resume family: %d positions x %d generators x %d following constructs on 2 inputs", len(forms), len(gens), len(follows)), rcomplete && rec.Thorough())
+
 	// stateful model test of the two persistent stacks (hooks): LIFO fork
 	// discipline against an immutable-list model
 	rec.Rapid(t, "stack-model", rec.Scale(3000, 100000), func(t *rapid.T) { stackModel(t) })
